@@ -367,7 +367,7 @@ package flags
 //@ func (c *Command) fillParseState(s *parseState)
 //@   props C07 C08 C10 C04
 //@   requires c != nil && s != nil && use(wf_cmd, c)
-//@   ensures[C08] s.command == c && s.lookup == c.makeLookup()
+//@   ensures[C03,C07,C08] s.command == c && s.lookup == c.makeLookup()
 //@   ensures[C07,C08] lookupOK(s)
 //@   ensures[C10] len(s.positional) == len(c.args) && forall(i, 0, len(c.args), s.positional[i] == c.args[i])
 //@   assigns s.positional, s.lookup, s.command
